@@ -13,7 +13,9 @@ Two readings of the wire listing are modelled side by side:
 for regular nets; a net without `+ ROUTED` has no attribute `routed`), `wirePoints` / `netWires` is what property
 C20 demands (a `*` inherits the previous point's value; regular nets have no stated width).
 Guard for every definition that uses `loc0`: the first point of a wire is explicit (`Wire.startOK`) — DEF requires it,
-and without it the real code puts `None` into via tuples / raises `TypeError` on arrays. -/
+and without it the real code puts `None` into via tuples / raises `TypeError` on arrays: the functions tied to the code are the
+PARTIAL ones of the last section (`Wire.wirePoints?`, `Wire.vias?`, `netVias?`, `netWiresR`, `netViasR`), which also carry the raw
+width token of a `DefWire` (`DWire`). -/
 namespace KV.Def
 
 /-- a point as `DefTransformer.point` returns it: `none` = `*`; `ext` = optional third value, carried unchanged -/
@@ -179,5 +181,109 @@ def netViasAsIs (routed : Option (List Wire)) : Res (Dict ViaLoc) :=
   match routed with
   | none => .error "attr"
   | some ws => .ok (netViasD ws)
+
+/-! ## the records as the transformer leaves them, and the real properties as PARTIAL functions (audit 2, finding 5)
+
+`DefWire.width` is the raw token (`args[1].value` of `spwire`, a lark `NUMBER`: digits or a decimal / exponent form) — the
+transformer does not convert it. `int(dw.width)` is evaluated by `DefNet.wires` only, and only for the wires it lists
+(`… for dw in self.routed if len(dw.wire_points) > 0`); `DefNet.vias` / `DefWire.vias` / `DefWire.wire_points` never read it.
+The grammar also accepts `*` in the FIRST point of a wire (DEF itself does not): the code then puts `None` into the listing
+(`wire_points`, plain vias) or raises `TypeError` (`None + x*x_sp` of a via array that is actually iterated). The functions
+`Wire.wirePoints?`, `Wire.vias?`, `netVias?`, `netWiresR`, `netViasR` are defined exactly where the real property returns a
+listing of integers, and say what happens elsewhere; where they are defined they agree with the total functions above
+(`Proofs/DefPartial.lean`), so every theorem about `wirePoints` / `viasD` / `netWires` / `netViasD` speaks about the code there. -/
+
+/-- `int(tok)` of a lark `NUMBER` token: a value on plain digits; `none` = Python raises `ValueError` (`1.5`, `1e3`, `.5`, `7.`) -/
+def intTok? (s : String) : Option Nat :=
+  if !s.toList.isEmpty && s.toList.all (fun c => '0' ≤ c && c ≤ '9') then
+    some (s.toList.foldl (fun acc c => 10 * acc + (c.toNat - '0'.toNat)) 0)
+  else none
+
+/-- a `DefWire` record as built by `DefTransformer.spwire` / `.wire` -/
+structure DWire where
+  layer : String
+  /-- `DefWire.width`: `none` for a regular-net wire (stays `None`), the raw NUMBER token for a special-net wire -/
+  width : Option String
+  start : RPt
+  rest : List Item
+deriving Repr, DecidableEq, Inhabited
+
+/-- `None if dw.width is None else int(dw.width)`: outer `none` = `int()` raises `ValueError` -/
+def DWire.widthVal (w : DWire) : Option (Option Nat) :=
+  match w.width with
+  | none => some none
+  | some t => (intTok? t).map some
+
+/-- what `wire_points` / `vias` read of the record (they never touch the width) -/
+def DWire.geom (w : DWire) : Wire := ⟨w.layer, none, w.start, w.rest⟩
+/-- the record with `int(width)` evaluated, where that does not raise -/
+def DWire.conv (w : DWire) : Option Wire := w.widthVal.map fun wd => ⟨w.layer, wd, w.start, w.rest⟩
+/-- `len(dw.wire_points) > 0`: the wire has a second point -/
+def DWire.listed (w : DWire) : Bool := !w.geom.wirePointsRaw.isEmpty
+
+/-- `DefWire.wire_points` as a list of integer points: `none` = the listing contains `None` (its first entry is `points[0]`
+itself, so this happens exactly for a listed wire whose first point carries `*`) -/
+def Wire.wirePoints? (w : Wire) : Option (List Pt3) :=
+  if w.wirePointsRaw.isEmpty then some [] else if w.startOK then some w.wirePoints else none
+
+/-- location with `None` coordinates as `DefWire.vias` carries it (`loc = self.points[0]`) -/
+abbrev OLoc := Option Int × Option Int
+/-- `(loc[0] if p[0] is None else p[0], loc[1] if p[1] is None else p[1])` -/
+def RPt.ontoO (p : RPt) (loc : OLoc) : OLoc :=
+  (match p.x with | some v => some v | none => loc.1, match p.y with | some v => some v | none => loc.2)
+
+/-- one iteration of the loop of `DefWire.vias` with `None` coordinates possible: `none` = the code appends a tuple with a
+`None` coordinate (plain via) or raises `TypeError` (`None + x*x_sp`; not when `range(x_cnt)` × `range(y_cnt)` is empty) -/
+def viasStepO (st : OLoc × Dict ViaLoc) : Item → Option (OLoc × Dict ViaLoc)
+  | .pt p => some (p.ontoO st.1, st.2)
+  | .via n o =>
+    match st.1 with
+    | (some x, some y) => some (st.1, st.2.push n (x, y, orientOf o))
+    | _ => none
+  | .arr n nx ny dx dy =>
+    match st.1 with
+    | (some x, some y) => some (st.1, (arrayAt (x, y) nx ny dx dy).foldl (fun d v => d.push n v) st.2)
+    | _ => if nx = 0 ∨ ny = 0 then some st else none
+
+def viasGoO (st : OLoc × Dict ViaLoc) : List Item → Option (Dict ViaLoc)
+  | [] => some st.2
+  | it :: r =>
+    match viasStepO st it with
+    | some st' => viasGoO st' r
+    | none => none
+
+/-- `DefWire.vias` as a dictionary of integer positions; `none` = `None` in a tuple / `TypeError` (see `viasStepO`) -/
+def Wire.vias? (w : Wire) : Option (Dict ViaLoc) := viasGoO ((w.start.x, w.start.y), []) w.rest
+
+def netViasGo (d : Dict ViaLoc) : List Wire → Option (Dict ViaLoc)
+  | [] => some d
+  | w :: r =>
+    match w.vias? with
+    | some wd => netViasGo (wd.foldl (fun d kv => d.extend kv.1 kv.2) d) r
+    | none => none
+
+/-- `DefNet.vias`; `none` = some wire's `vias` is not a listing of integers -/
+def netVias? (ws : List Wire) : Option (Dict ViaLoc) := netViasGo [] ws
+/-- … on the raw records: the width token is not read -/
+def netViasR (ws : List DWire) : Option (Dict ViaLoc) := netVias? (ws.map DWire.geom)
+
+/-- the comprehension of `DefNet.wires` over the raw records: `[ww[dw.layer].append((None if dw.width is None else
+int(dw.width), dw.wire_points)) for dw in self.routed if len(dw.wire_points) > 0]` -/
+def netWiresGo (d : Dict (Option Nat × List Pt3)) : List DWire → Res (Dict (Option Nat × List Pt3))
+  | [] => .ok d
+  | w :: r =>
+    if w.listed then
+      match w.widthVal with
+      | none => .error "value"
+      | some wd => netWiresGo (d.push w.layer (wd, w.geom.wirePoints)) r
+    else netWiresGo d r
+
+/-- `DefNet.wires` on the raw records. `.error "value"`: the property raises `ValueError` (a LISTED wire has a width token
+that `int()` rejects); `.error "start"`: it returns, but a listed wire starts with `*`, so the listing contains `None`;
+`.ok d`: the listing (all integers) -/
+def netWiresR (ws : List DWire) : Res (Dict (Option Nat × List Pt3)) :=
+  match netWiresGo [] ws with
+  | .error e => .error e
+  | .ok d => if ws.all (fun w => !w.listed || w.geom.startOK) then .ok d else .error "start"
 
 end KV.Def
